@@ -134,8 +134,8 @@ def main():
         # ------------------------------------------------------------------ (a) gluing / format_asynq_stack
         gcases = []
         gstates = gtrans = 0
-        runs = [{"MAXD": "6" if quick else "8", "PRIORD": "4" if quick else "5", "RETRD": "4" if quick else "6",
-                 "NOSRCD": "4" if quick else "6", "HANDD": "5" if quick else "7"}]
+        runs = [{"MAXD": "6" if quick else "8", "PRIORD": "4" if quick else "5", "RETRD": "4" if quick else "5",
+                 "NOSRCD": "4" if quick else "5", "HANDD": "5" if quick else "6"}]
         if not quick:
             runs += [{"DEEP": "50"}, {"DEEP": "200"}]
         for env in runs:
@@ -239,7 +239,7 @@ def main():
                     "modes x sync x style x outer%s, chains of depth <= %s also after each of 6 kinds of earlier computation on the thread (error handled by a task / by the caller), chains of depth <= %s asked for their outcome several times, chains of depth <= %s with generated (source-less) functions at one level / at every level, chains of depth <= %s with a hand-over (creator chain differs from the await chain) at every level; life: every operation history of 14 object kinds to depth %s + 88 format_error "
                     "cells; non-trivial = text with a complete run / chain with a handler / distinct (kind,state) / cell"
                     % (env_get(stats, "max_lines"), env_get(stats, "max_short_lines"), env_get(stats, "max_blocks"),
-                       "6" if quick else "8", "" if quick else " + depths 25..200", "4" if quick else "5", "4" if quick else "6", "4" if quick else "6", "5" if quick else "7", "5" if quick else "7"),
+                       "6" if quick else "8", "" if quick else " + depths 25..200", "4" if quick else "5", "4" if quick else "5", "4" if quick else "5", "5" if quick else "6", "5" if quick else "7"),
             "exhaustive": True,
             "counts": {"filter_texts": nfilter, "glue_chains": nglue, "life_histories": len(lcases)},
         }
